@@ -4,6 +4,7 @@ package gen
 import (
 	"fmt"
 	"strings"
+	"unicode/utf8"
 
 	"verif/sim/scen"
 )
@@ -70,7 +71,7 @@ var testNames = []string{"TestA", "TestAB", "TestA1", "Test1", "TestB", "TestSub
 
 func framingString(r *scen.Rand, av Avoid) string {
 	for {
-		k := r.Intn(20)
+		k := r.Intn(21)
 		switch k {
 		case 0:
 			return "---"
@@ -93,6 +94,12 @@ func framingString(r *scen.Rand, av Avoid) string {
 		case 16:
 			// a blank line right before a header-like line, as inside a stored snapshot file
 			return plainLine(r) + "\n\n" + fmt.Sprintf("[%s - %d]", headerName(r, av), 1+r.Intn(3)) + "\n" + plainLine(r) + "\n---\n"
+		case 20:
+			if av.BadUTF8 {
+				continue
+			}
+			// a long single line with one byte that is not valid UTF-8
+			return strings.Repeat(plainLine(r)+" ", 40) + string([]byte{0xff}) + strings.Repeat(" tail", 30)
 		case 19:
 			// one long line of mostly multi-byte characters with one ASCII letter in the middle
 			return strings.Repeat("é", 2500+r.Intn(50)) + "A" + strings.Repeat("ü", 2500)
@@ -279,6 +286,14 @@ func mutateString(r *scen.Rand, s string, av Avoid, multi bool) string {
 			}
 		}
 		kind := r.Intn(12)
+		if !av.BadUTF8 && !utf8.ValidString(s) && r.Bool(0.25) {
+			// the raw byte against its usual spelling in text
+			for i := 0; i < len(s); i++ {
+				if s[i] >= 0xf5 || s[i] == 0xc0 || s[i] == 0xc1 {
+					return s[:i] + fmt.Sprintf("\\x%02x", s[i]) + s[i+1:]
+				}
+			}
+		}
 		if len(s) > 4096 && strings.Contains(s, "éA") && r.Bool(0.7) {
 			return strings.Replace(s, "éA", "éB", 1) // the one ASCII letter after thousands of multi-byte characters
 		}
